@@ -16,6 +16,7 @@ import (
 	"verif/harness/suites/jpegls"
 	"verif/harness/suites/mq"
 	"verif/harness/suites/parsers"
+	"verif/harness/suites/pipe"
 	"verif/harness/suites/q97"
 	"verif/harness/suites/rle"
 	t1s "verif/harness/suites/t1"
@@ -39,5 +40,6 @@ func main() {
 	dwt.Register(s)       // C20 (5/3 DWT)
 	mq.Register(s)        // C20 C16 C08 (MQ coder)
 	t1s.Register(s)       // C20 (EBCOT T1)
+	pipe.Register(s)      // C04 (composed reversible pipeline)
 	vhlib.Main(s)
 }
